@@ -318,14 +318,22 @@ func checkGenerate(c *Ctx, m *gensignModel, h *types.Named, gen *ssa.Function) {
 			}
 		}
 		okv := extractOfV(lk, 1)
+		// the lookup may sit in a helper of Generate whose failure is Generate's failure
+		lkf := w.factsOf(lk.Parent())
 		isT, known := f.KnownBool(req.Block(), okv)
+		if req.Parent() != gen {
+			isT, known = w.factsOf(req.Parent()).KnownBool(req.Block(), okv)
+		}
 		c.Check(known && isT, "R1.csr", hn+"|request built only when a key slot is configured", w.Pos(req.Pos()), "must-fact lookup ok", "a request can be built although no key slot is configured for the algorithm (silent default)")
 		n := 0
-		for _, r := range liveReturns(gen) {
-			if v, known := f.KnownBool(r.Block(), okv); known && !v {
+		if lk.Parent() != gen && !w.failurePropagates(gen, lk.Parent()) {
+			c.Bad("R1.csr", hn+"|missing key slot refused with a configuration error", w.Pos(lk.Pos()), "the failure of "+shortFn(lk.Parent())+", which looks the key slot up, is not Generate's failure")
+		}
+		for _, r := range liveReturns(lk.Parent()) {
+			if v, known := lkf.KnownBool(r.Block(), okv); known && !v {
 				n++
 				good := true
-				for _, lf := range w.Leaves(r.Results[1], r) {
+				for _, lf := range w.Leaves(r.Results[errorResultIndex(lk.Parent())], r) {
 					k, isK := errKindOf(lf.Val)
 					if !isK || k != m.Kinds["HandlerConfErr"] {
 						good = false
@@ -371,7 +379,7 @@ func checkGenerate(c *Ctx, m *gensignModel, h *types.Named, gen *ssa.Function) {
 		for _, v := range vs {
 			if ex, ok := v.(*ssa.Extract); ok && ex.Index == 0 {
 				if mc, ok := ex.Tuple.(*ssa.Call); ok && strings.HasSuffix(calleeName(mc), "keyid.KeyID).Marshal") && w.canon(gen, mc.Call.Args[0]) == ssa.Value(kid) {
-					okId = w.ErrEdgeEnds(gen, extractOf(mc, 1))
+					okId = w.ErrEdgeEnds(mc.Parent(), extractOf(mc, 1)) && w.failurePropagates(gen, mc.Parent())
 				}
 			}
 		}
